@@ -163,10 +163,12 @@ pub fn check(seed: u64, case: &Kv, rep: &mut Report) {
     let mut r = Rng::new(seed, fnv(&key) ^ 0x8888);
     let n_in = net.input.count();
     let n_out = shapes.last().unwrap().out.count();
+    // "identical": every sample is the first one (input and target); "same-input": every odd sample repeats the input
+    // of the sample before it with a different target (replicate measurements / noisy labels)
     let identical = case.opt("data") == Some("identical");
-    let xs: Vec<Tensor> = (0..n)
+    let same_input = case.opt("data") == Some("same-input");
+    let mut xs: Vec<Tensor> = (0..n)
         .map(|i| {
-            let i = if identical { 0 } else { i };
             if onehot {
                 Tensor::one_hot(i, n_in)
             } else {
@@ -174,9 +176,17 @@ pub fn check(seed: u64, case: &Kv, rep: &mut Report) {
             }
         })
         .collect();
-    let ts: Vec<Tensor> = (0..n)
+    let mut ts: Vec<Tensor> = (0..n)
         .map(|i| Tensor::single((0..n_out).map(|j| if onehot { (i as f32 + 1.0) * 0.5 - j as f32 } else { r.signed(0.1, 1.0) }).collect()))
         .collect();
+    for i in 1..n {
+        if identical {
+            xs[i] = xs[0].clone();
+            ts[i] = ts[0].clone();
+        } else if same_input && i % 2 == 1 {
+            xs[i] = xs[i - 1].clone();
+        }
+    }
     let xr: Vec<&Tensor> = xs.iter().collect();
     let tr: Vec<&Tensor> = ts.iter().collect();
 
@@ -393,6 +403,7 @@ pub fn cases(thorough: bool) -> Vec<Kv> {
     for ospec in opts() {
         for (n, b, e) in [(4usize, 2usize, 2usize), (5, 3, 1), (6, 6, 1)] {
             out.push(Kv::new().put("net", "mlp").put("opt", ospec.name()).put("obj", "MSE").put("n", n).put("b", b).put("e", e).put("data", "identical"));
+            out.push(Kv::new().put("net", "mlp").put("opt", ospec.name()).put("obj", "MSE").put("n", n).put("b", b).put("e", e).put("data", "same-input"));
         }
     }
     // a wide layer with ordinary batch sizes (32, 64) and 150 samples
